@@ -111,18 +111,22 @@ LitOf(x) ==
 (***************************** FHIR element kinds *************************)
 IdChar(c) == IsDigit(c) \/ IsAlpha(c) \/ c \in {45, 46}
 IsIdLike(s) == Len(s) >= 1 /\ Len(s) <= 64 /\ \A j \in 1..Len(s) : IdChar(s[j])
+IsCodeLike(s) == /\ Len(s) >= 1 /\ s[1] # 32 /\ s[Len(s)] # 32
+                 /\ \A j \in 1..Len(s) : s[j] >= 32 /\ (s[j] = 32 => j < Len(s) /\ s[j + 1] # 32)
 NoWsEdge(s) == Len(s) >= 1 /\ ~IsWs(s[1]) /\ ~IsWs(s[Len(s)]) /\ \A j \in 1..Len(s) : s[j] >= 32
 
 (* The FHIR primitive kinds whose System value is exactly x (system.From's reading of FHIR
-   primitives: code, id, uri, markdown are Strings; positiveInt, unsignedInt are Integers;
+   primitives: code, id, uri, url, canonical, markdown are Strings; positiveInt, unsignedInt are Integers;
    instant is a DateTime; a Quantity element is a Quantity whose unit is its code). *)
-FhirKinds(x, full) ==
+FhirKinds(x, full, ext) ==
   CASE x.t = "b" -> {"boolean"}
     [] x.t = "i" -> {"integer"} \cup (IF x.i > 0 THEN {"positiveInt"} ELSE {}) \cup (IF x.i >= 0 THEN {"unsignedInt"} ELSE {})
     [] x.t = "d" -> {"decimal"}
     [] x.t = "s" -> IF Len(x.cp) = 0 \/ \E j \in 1..Len(x.cp) : x.cp[j] < 32 /\ x.cp[j] \notin {9, 10, 13} THEN {}
-                    ELSE {"string"} \cup (IF full /\ NoWsEdge(x.cp) THEN {"markdown", "uri", "code"} ELSE {})
-                                    \cup (IF full /\ IsIdLike(x.cp) THEN {"id"} ELSE {})
+                    ELSE {"string"} \cup (IF full THEN {"markdown"} ELSE {})
+                                    \cup (IF full /\ IsCodeLike(x.cp) THEN {"code"} ELSE {})
+                                    \cup (IF full /\ IsIdLike(x.cp) THEN {"id", "uri"} ELSE {})
+                                    \cup (IF full /\ ext /\ IsIdLike(x.cp) THEN {"url", "canonical"} ELSE {})
     [] x.t = "date" -> {"date"}
     [] x.t = "dt" -> IF x.p <= 3 THEN {"dateTime"}
                      ELSE IF x.p >= 6 /\ x.tz THEN {"dateTime"} \cup (IF x.p = 7 THEN {"instant"} ELSE {})
@@ -142,7 +146,7 @@ ElemPath == "Parameters.parameter.value"
 SourcesOf(pool, j, x, full) ==
   (IF HasLit(x) THEN {Src(pool, j, x, "lit", "", "", LitOf(x))} ELSE {})
   \cup {Src(pool, j, x, "env", "", "%x", <<>>)}
-  \cup {Src(pool, j, x, "el", k, ElemPath, <<>>) : k \in FhirKinds(x, full)}
+  \cup {Src(pool, j, x, "el", k, ElemPath, <<>>) : k \in FhirKinds(x, full, Level >= 2)}
 
 ComplexSources ==
   { Src("c", 1, Cx("HumanName"), "el", "HumanName", "Patient.name.first()", <<>>),
@@ -152,7 +156,7 @@ ComplexSources ==
 
 Sources ==
   UNION {SourcesOf("v", j, ValuePool[j], TRUE) : j \in 1..Len(ValuePool)}
-  \cup UNION {SourcesOf("s", j, StrPool[j], FALSE) : j \in 1..Len(StrPool)}
+  \cup UNION {SourcesOf("s", j, StrPool[j], Level >= 2) : j \in 1..Len(StrPool)}
   \cup ComplexSources
 
 Cases == {[src |-> s, T |-> T] : s \in Sources, T \in Targets}
